@@ -394,7 +394,13 @@ def check_has_move(ctx, prog, quick=True, tables=True):
                         gsv = inputs.play_state(prog, gold, step, trapped=trapped)
                         st = State({})
                         gs = inputs.ref_to(I, st, 'gs', gsv)
-                        ra, _ = I.call_fn(fa, [gs, L], st)
+                        # the helper may take the list by value or by reference
+                        if prog.fns[fa]['locals'][2].startswith('&'):
+                            lcell = ('static', 'in:Larg')
+                            st.store[lcell] = L
+                            ra, _ = I.call_fn(fa, [gs, Ref(lcell)], st)
+                        else:
+                            ra, _ = I.call_fn(fa, [gs, L], st)
                         st = State({})
                         gs = inputs.ref_to(I, st, 'gs', gsv)
                         cell = ('static', 'in:L')
@@ -423,6 +429,8 @@ def check_has_move(ctx, prog, quick=True, tables=True):
 
             def stub(I_, st, args):
                 lst = args[1]
+                while isinstance(lst, Ref):
+                    lst = I_.deref(st, lst)
                 gens_seen.append(lst)
                 return boolv_atom('hnp%d' % len(gens_seen)), st
             I2 = inputs.make_interp(prog, fuel=20000000)
